@@ -1558,7 +1558,10 @@ package tree
 
 //@ func (*tree.Tree).Reroot
 //@   flag noframe
+//@   flag countcalls
 //@   requires t != nil && allocated(n) && LIVEBR()
+//@   call (*tree.Tree).ReinitInternalIndexes [branch_indexes_are_rebuilt_on_the_new_orientation_that_is_after_the_branches_were_reordered] a0 == t && ghost(ncalls_ReorderEdges) == old(ghost(ncalls_ReorderEdges)) + 1
+//@   call (*tree.Tree).ReorderEdges [the_branches_are_reoriented_from_the_new_root_before_any_index_is_rebuilt] a0 == t && a1 == n && a2 == nil && a3 == nil && t.root == n && ghost(ncalls_ReinitInternalIndexes) == old(ghost(ncalls_ReinitInternalIndexes))
 //@   ensures [a_tip_is_refused] old(deg(n)) < 2 ==> result != nil && t.root == old(t.root)
 //@   ensures [on_success_the_node_is_the_root] result == nil ==> t.root == n
 //@   ensures [on_error_the_root_is_unchanged_unless_reordering_failed] result != nil ==> t.root == old(t.root) || t.root == n
@@ -1617,6 +1620,8 @@ package tree
 //@   call (*tree.Edge).SetLength [each_half_gets_half_of_the_length_of_the_separating_branch] a1 == rootedge.length / 2.0 && rootedge.length != -1.0
 //@   call (*tree.Edge).SetSupport [each_half_carries_the_support_of_the_separating_branch] a1 == rootedge.support
 //@   call (*tree.Tree).reroot_nocheck [both_halves_were_given_the_support_and_the_length_when_there_is_one] !removeoutgroup ==> ghost(ncalls_SetSupport) == old(ghost(ncalls_SetSupport)) + 2 && (rootedge.length != -1.0 ==> ghost(ncalls_SetLength) == old(ghost(ncalls_SetLength)) + 2)
+//@   call (*tree.Tree).UpdateTipIndex [the_name_index_is_rebuilt_only_after_the_tree_was_rerooted_on_a_surviving_node_and_only_when_tips_were_removed] removeoutgroup && a0 == t && ghost(ncalls_reroot_nocheck) == old(ghost(ncalls_reroot_nocheck)) + 1
+//@   call (*tree.Tree).ReinitInternalIndexes [branch_indexes_are_rebuilt_last_after_the_rerooting_and_after_the_name_index] a0 == t && ghost(ncalls_reroot_nocheck) == old(ghost(ncalls_reroot_nocheck)) + 1 && ghost(ncalls_UpdateTipIndex) == old(ghost(ncalls_UpdateTipIndex)) + (removeoutgroup ? 1 : 0)
 //@   loop 3
 //@     complete [all_iterations_no_early_exit]
 
